@@ -240,6 +240,10 @@ def run(ctx):
         n = rng.choice([2, 3, 4, 6, 9, 14])
         nd = rng.choice([0, 0, 1, 2])
         equal = rng.random() < 0.5
+        if it % 15 == 7:
+            # scale-up slice: more than 256 / 1000 pairs (work partitioning, chunked dispatch), unequal lengths
+            n, nd, equal = rng.choice([24, 30, 48, 52]), 0, rng.random() < 0.4
+            ctx.count("py_large_collections")
         n0 = rng.randint(1, 8)
         lens = [n0 if equal else rng.randint(1, 8) for _ in range(n)]
         ss = [gen.series_nd(rng, m, nd) if nd else gen.series(rng, m) for m in lens]
@@ -257,6 +261,8 @@ def run(ctx):
             block = ((rb, re), (cb, ce)) if rng.random() < 0.6 else ((rb, re), (cb, ce), False)
         else:
             block = None
+        if n >= 24 and rng.random() < 0.7:
+            block = None
         if equal and rng.random() < 0.5:
             data = np.array(ss)
         else:
@@ -269,7 +275,7 @@ def run(ctx):
                 ctx.violation("exception", fn="distance_matrix(serial)", use_c=use_c, error=repr(e)[:300], block=block)
                 continue
             modes = [("omp", k) for k in rng.sample([1, 2, 3, 5, 16, 64], 2)] if use_c else []
-            if it % 4 == 0:
+            if it % 4 == 0 or n >= 24:
                 modes += [("mp", k) for k in rng.sample([1, 2, 3, 16], 1)]
             for mode, k in modes:
                 ctx.current("py %s k=%d use_c=%s block=%r %r %r" % (mode, k, use_c, block, ss, kw))
